@@ -549,7 +549,7 @@ func gen(g *fw.Gen) {
 	emitV := func(class string, pub, alpha, pi []byte) { g.Emit(class, fw.Pack(pub, alpha, pi)) }
 
 	// prove
-	for n := g.ShareOf(800, 40000); n > 0; n-- {
+	for n := g.ShareOf(800, 20000); n > 0; n-- {
 		g.Emit("prove", fw.Pack(g.Bytes(32), randAlpha(g)))
 	}
 	// dense sweep of alpha lengths beyond any plausible fixed-size buffer, and around powers of two
@@ -583,7 +583,7 @@ func gen(g *fw.Gen) {
 	}
 
 	// verify: honest and structured mutations
-	for n := g.ShareOf(320, 16000); n > 0; n-- {
+	for n := g.ShareOf(320, 8000); n > 0; n-- {
 		pub, alpha, pi, seed := honest(g)
 		emitV("honest", pub, alpha, pi)
 		// wrong key / wrong alpha
@@ -682,7 +682,7 @@ func gen(g *fw.Gen) {
 		}
 	}
 	// random
-	for n := g.ShareOf(300, 20000); n > 0; n-- {
+	for n := g.ShareOf(300, 10000); n > 0; n-- {
 		pi := g.Bytes(80)
 		pi[79] &= 0x0f
 		pub, alpha, _, _ := honest(g)
@@ -690,7 +690,7 @@ func gen(g *fw.Gen) {
 	}
 
 	// decode
-	for n := g.ShareOf(4000, 400000); n > 0; n-- {
+	for n := g.ShareOf(4000, 200000); n > 0; n-- {
 		x := g.Bytes(80)
 		switch g.Rng.Intn(8) {
 		case 0: // arbitrary length
@@ -713,17 +713,17 @@ func gen(g *fw.Gen) {
 		}
 		g.Emit("decode", fw.Pack(x))
 	}
-	for n := g.ShareOf(300, 15000); n > 0; n-- {
+	for n := g.ShareOf(300, 8000); n > 0; n-- {
 		g.Emit("reuse", fw.Pack(fw.U64(g.Rng.Uint64())))
 	}
-	for n := g.ShareOf(200, 10000); n > 0; n-- {
+	for n := g.ShareOf(200, 5000); n > 0; n-- {
 		g.Emit("related", fw.Pack(fw.U64(g.Rng.Uint64())))
 	}
 	for n := g.ShareOf(32, 1600); n > 0; n-- {
 		g.Emit("concurrent", fw.Pack(fw.U64(g.Rng.Uint64())))
 	}
 	// uniqueness
-	for n := g.ShareOf(200, 10000); n > 0; n-- {
+	for n := g.ShareOf(200, 5000); n > 0; n-- {
 		g.Emit("unique", fw.Pack(g.Bytes(32), randAlpha(g), g.Bytes(8)))
 	}
 }
